@@ -402,7 +402,15 @@ func (s *Sched) enabled() (en []trans, wakeAt int64) {
 		case shim.OpYield:
 			en = append(en, trans{g: g, k: -1, desc: g.ID + " yield " + op.Site})
 		case shim.OpEnv:
-			if s.EnvEnabled == nil || s.EnvEnabled(op.Name) {
+			ok := true
+			if s.EnvEnabled != nil {
+				// the predicate may call back into the scheduler (Alive, ...): nothing else runs
+				// at a quiescent point, so dropping the lock here is safe
+				s.mu.Unlock()
+				ok = s.EnvEnabled(op.Name)
+				s.mu.Lock()
+			}
+			if ok {
 				en = append(en, trans{g: g, k: -1, desc: g.ID + " env " + op.Name})
 			}
 		case shim.OpSelect:
